@@ -127,7 +127,11 @@ const MAX_DRAIN: usize = 100_000;
 // Events: [0, msg, remaining] message returned; [1, remaining] need more (end of this chunk);
 // [2, remaining] decoder error (stream ends); [9] a message was returned with nothing
 // consumed (tokio would call again at once: spin) - the harness stops there.
-fn rtr_case(chunks: &[Val]) -> Val {
+//
+// fresh = true: the decoder object is re-created before EVERY call, so that nothing but the
+// buffer can carry over from one call to the next (the memoryless reference run that the
+// oracle compares the normal run with: gen/c03.py oracle_memoryless).
+fn rtr_case(chunks: &[Val], fresh: bool) -> Val {
     let mut codec = rpki::RtrCodec::new();
     let mut buf = BytesMut::new();
     let mut ev = Vec::new();
@@ -135,6 +139,9 @@ fn rtr_case(chunks: &[Val]) -> Val {
         buf.extend_from_slice(&ch.bytes());
         for _ in 0..MAX_DRAIN {
             let before = buf.len();
+            if fresh {
+                codec = rpki::RtrCodec::new();
+            }
             match codec.decode(&mut buf) {
                 Ok(Some(m)) => {
                     ev.push(l(vec![Val::n(0u8), rtr_msg_val(&m), Val::us(buf.len())]));
@@ -530,14 +537,18 @@ fn parsed_val(m: &ParsedMessage) -> Val {
 
 // Events: [0, msg, remaining]; [1, remaining]; [2, code, sub, data, remaining] (stream ends);
 // [9] message returned with nothing consumed.
-fn bgp_case(codec: &Val, chunks: &[Val]) -> Val {
-    let mut codec = codec_of(codec);
+// fresh = true: a new PeerCodec (same negotiated parameters) before every call, see rtr_case.
+fn bgp_case(codec_v: &Val, chunks: &[Val], fresh: bool) -> Val {
+    let mut codec = codec_of(codec_v);
     let mut buf = BytesMut::new();
     let mut ev = Vec::new();
     'outer: for ch in chunks {
         buf.extend_from_slice(&ch.bytes());
         for _ in 0..MAX_DRAIN {
             let before = buf.len();
+            if fresh {
+                codec = codec_of(codec_v);
+            }
             match codec.try_parse(&mut buf) {
                 Ok(Some(m)) => {
                     ev.push(l(vec![Val::n(0u8), parsed_val(&m), Val::us(buf.len())]));
@@ -620,8 +631,10 @@ fn validate_case(codec: &Val, is_ebgp: bool, bytes: &[u8]) -> Val {
 fn run_case(c: &Val) -> Val {
     match c.at(0).int() {
         0 => bfd_case(&c.at(1).bytes()),
-        1 => rtr_case(c.at(1).list()),
-        2 => bgp_case(c.at(1), c.at(2).list()),
+        1 => rtr_case(c.at(1).list(), false),
+        2 => bgp_case(c.at(1), c.at(2).list(), false),
+        4 => rtr_case(c.at(1).list(), true),
+        5 => bgp_case(c.at(1), c.at(2).list(), true),
         3 => validate_case(c.at(1), c.at(2).bool(), &c.at(3).bytes()),
         k => panic!("verif: bad case kind {}", k),
     }
